@@ -4,12 +4,12 @@
 #include "props/regp.hpp"
 using namespace rx;
 
-struct Spec { int kind; bool write, w16; uint16_t seq; uint32_t addr, n; Bytes payload; int code; uint32_t vaddr; int meta; int optx = -1; int dmg = 0; };   // kind 0 request 1 response 2 meta; dmg != 0: the frame is damaged on the way (see damaged()); optx >= 0: checksum option bits to use instead of the transport's canonical ones
+struct Spec { int kind; bool write, w16; uint16_t seq; uint32_t addr, n; Bytes payload; int code; uint32_t vaddr; int meta; int optx = -1; int dmg = 0; bool muted = false; };   // kind 0 request 1 response 2 meta; muted: while this frame is processed the instance's sink is the library's own sink_null (a listen-only device) - the memory access happens all the same; dmg != 0: the frame is damaged on the way (see damaged()); optx >= 0: checksum option bits to use instead of the transport's canonical ones
 struct Case { bool serial, mem16, chunk_src, chunk_snk; uint32_t extra; std::vector<Spec> frames; bool nest = false; };   // nest: while a response is being handed to the sink, the sink's driver makes a second protocol instance emit an error response of its own   // extra == 0: the receive block is exactly as large as the largest frame/answer needs
 
 static std::string ser_case(const Case &c) {
     std::string s = vp::fmt("session %d %d %d %d %u %d\n", (int)c.serial, (int)c.mem16, (int)c.chunk_src, (int)c.chunk_snk, c.extra, (int)c.nest);
-    for (auto &f : c.frames) s += vp::fmt("frame %d %d %d %u %u %u %d %u %d %s %d %d\n", f.kind, (int)f.write, (int)f.w16, f.seq, f.addr, f.n, f.code, f.vaddr, f.meta, f.payload.empty() ? "-" : vp::hex(f.payload).c_str(), f.optx, f.dmg);
+    for (auto &f : c.frames) s += vp::fmt("frame %d %d %d %u %u %u %d %u %d %s %d %d %d\n", f.kind, (int)f.write, (int)f.w16, f.seq, f.addr, f.n, f.code, f.vaddr, f.meta, f.payload.empty() ? "-" : vp::hex(f.payload).c_str(), f.optx, f.dmg, (int)f.muted);
     return s;
 }
 // damage 1/2: checksum field off by a few bits; 3..6: checksum field forced to 0x0000 / 0xffff (payload, header); 7/8: payload one octet short / long
@@ -85,7 +85,9 @@ static std::string run_case(const Case &c, std::string &msg, bool classify) {
         if (rr != 0 || mf.error.id != 0 || mf.frame == nullptr) { msg = tag + vp::fmt("regp_recv rc=%d error.id=%d", rr, mf.error.id); if (mf.frame) regp_free(&S.p, mf.frame); return "valid-frame-not-received"; }
         if (!S.snk.got.empty()) { msg = tag + "reception of a valid frame produced output"; regp_free(&S.p, mf.frame); return "recv:unexpected-output"; }
         if (c.nest) S.snk.hook = [&]() { (void)regp_resp_erange(&N->p, nmf.frame, 0x5a5a5a5au); (void)N->take_output(); };
+        if (sp.muted) regp_use_channel(&S.p, c.serial ? RP_EP_SERIAL : RP_EP_TCP, S.src.src, sink_null);
         int pr = regp_process(&S.p, &mf);
+        if (sp.muted) regp_use_channel(&S.p, c.serial ? RP_EP_SERIAL : RP_EP_TCP, S.src.src, S.snk.snk);
         S.snk.hook = nullptr;
         (void)pr;   // return codes of regp_process are not part of the property
         Bytes out = S.take_output();
@@ -95,6 +97,12 @@ static std::string run_case(const Case &c, std::string &msg, bool classify) {
         if (sp.kind != 0) {
             if (ncalls) { msg = tag + "a response/meta frame caused a memory access"; key = "non-request:memory-access"; }
             else if (!out.empty()) { msg = tag + "a response/meta frame was answered"; key = "non-request:answered"; }
+        } else if (sp.muted) {
+            // nobody listens: the request is executed exactly once all the same (reads may have side effects in the back-end)
+            if (!width_ok) { if (ncalls) { msg = tag + "word-size mismatch but memory was accessed"; key = "wordsize:memory-access"; } }
+            else if (ncalls != 1) { msg = tag + vp::fmt("%zu memory accesses while the sink is the library's sink_null", ncalls); key = ncalls ? "request:accessed-more-than-once" : "muted:request-not-executed"; }
+            else { const Call &cl = be().log.back(); if (cl.write != sp.write || cl.addr != sp.addr || cl.n != sp.n || (sp.write && cl.data != sp.payload)) { msg = tag + "access arguments differ from the request"; key = "request:wrong-access-arguments"; } }
+            if (classify && key.empty()) vp::cls("request-processed-with-sink_null");
         } else {
             std::vector<Bytes> frames; rp::Frame got;
             if (!rp::split_wire(c.serial, out, frames) || frames.size() != 1) { msg = tag + vp::fmt("%zu frames in the reply (%zu octets)", frames.size(), out.size()); key = frames.empty() ? "request:no-reply" : "request:several-replies"; }
@@ -156,6 +164,7 @@ static rc::Gen<Case> genCase() {
             s.meta = *vprc::uni<int>(1, 2);
             s.optx = *rc::gen::weightedElement<int>({{5, -1}, {1, 0}, {1, rp::HDCRC}, {1, rp::PLCRC}, {1, rp::HDCRC | rp::PLCRC}});
             s.dmg = *rc::gen::weightedOneOf<int>({{6, rc::gen::just(0)}, {1, vprc::uni<int>(1, 8)}});
+            s.muted = *rc::gen::weightedElement<bool>({{9, false}, {1, true}});
             return s;
         }));
         return c;
@@ -180,7 +189,7 @@ static bool replay(const std::string &text) {
         auto w = vp::split(l);
         if (w.size() >= 6 && w[0] == "session") { c.serial = atoi(w[1].c_str()); c.mem16 = atoi(w[2].c_str()); c.chunk_src = atoi(w[3].c_str()); c.chunk_snk = atoi(w[4].c_str()); c.extra = (uint32_t)strtoul(w[5].c_str(), 0, 10); c.nest = w.size() >= 7 && atoi(w[6].c_str()); have = true; }
         else if (w.size() >= 11 && w[0] == "frame") c.frames.push_back({atoi(w[1].c_str()), (bool)atoi(w[2].c_str()), (bool)atoi(w[3].c_str()), (uint16_t)strtoul(w[4].c_str(), 0, 10), (uint32_t)strtoul(w[5].c_str(), 0, 10),
-                                                                      (uint32_t)strtoul(w[6].c_str(), 0, 10), w[10] == "-" ? Bytes() : vp::unhex(w[10]), atoi(w[7].c_str()), (uint32_t)strtoul(w[8].c_str(), 0, 10), atoi(w[9].c_str()), w.size() >= 12 ? atoi(w[11].c_str()) : -1, w.size() >= 13 ? atoi(w[12].c_str()) : 0});
+                                                                      (uint32_t)strtoul(w[6].c_str(), 0, 10), w[10] == "-" ? Bytes() : vp::unhex(w[10]), atoi(w[7].c_str()), (uint32_t)strtoul(w[8].c_str(), 0, 10), atoi(w[9].c_str()), w.size() >= 12 ? atoi(w[11].c_str()) : -1, w.size() >= 13 ? atoi(w[12].c_str()) : 0, w.size() >= 14 && atoi(w[13].c_str()) != 0});
     }
     if (!have) return false;
     std::string msg, key = run_case(c, msg, false);
